@@ -113,6 +113,20 @@ fn gen(rng: &mut Rng, tier: &str) -> Vec<(String, Value)> {
     push("boundary.dump_dirs", vec!["rsync://a/m/x.cer".into()], vec!["https://rsync/n.xml".into(), "https://RSYNC/other.xml".into()]);
     push("boundary.dump_dirs", vec!["rsync://a/m/x".into(), "rsync://a/m/x/y".into(), "rsync://a/m/x/".into(), "rsync://A/m/x".into()],
          vec!["https://a/n.xml".into(), "https://A/other.xml".into(), "https://a-1/n.xml".into()]);
+    // authorities that look like the names the registry generates ("<authority>-<i>"), in every order, also on
+    // top of the reserved names
+    for hs in [
+        vec!["https://a/1.xml", "https://a/2.xml", "https://a-1/3.xml"],
+        vec!["https://a-1/3.xml", "https://a/1.xml", "https://a/2.xml"],
+        vec!["https://a/1.xml", "https://a-1/3.xml", "https://a/2.xml", "https://a/4.xml", "https://a-2/5.xml", "https://A-1/6.xml"],
+        vec!["https://a/1.xml", "https://a/2.xml", "https://a/3.xml", "https://a-2/4.xml", "https://a-1/5.xml", "https://a-1/6.xml", "https://a-1-1/7.xml"],
+        vec!["https://rsync/1.xml", "https://rsync-1/2.xml", "https://rsync/3.xml", "https://RSYNC-1/4.xml"],
+        vec!["https://rsync-1/2.xml", "https://rsync/1.xml", "https://rsync/3.xml"],
+        vec!["https://../1.xml", "https://..-1/2.xml", "https://../3.xml", "https://-1/4.xml", "https:///5.xml", "https:///6.xml"],
+        vec!["https://./1.xml", "https://./2.xml", "https://.-1/3.xml", "https://.-2/4.xml"],
+    ] {
+        push("boundary.dump_numbered", vec!["rsync://a/m/x.cer".into(), "rsync://a-1/m/x.cer".into()], hs.into_iter().map(String::from).collect());
+    }
     // (c) structured random: small pools so that equivalent and near-equivalent URIs meet
     let n = if tier == "thorough" { 1500 } else { 100 };
     for _ in 0..n {
